@@ -44,6 +44,18 @@ CHECKS = {
  "C09": dict(cat="model_checking", ref="DESIGN.md 4 C09", tech="hook-controlled stop at every poll index k (fault enumeration over poll points) with the outcome judged by the TLA+ rule book and Trace_Search.tla clauses",
    text="For each (position, limit) the number P of stop-flag loads of the unstopped search is counted through the hook; the search is then run once for every k = 1..P with the flag reading true from the k-th load on, followed by two ordinary searches on the same tables. TLC judges: legal move returned, caller's game untouched, no flag load / larger node count after the observing poll, follow-up searches return legal moves and legal lines.",
    note="Poll indices are exhaustive per pair up to a cap (40 quick / 200 thorough), both ends sampled beyond. The abstract abort action of SearchCtl.tla covers the design level; a node-level Negamax.tla is a growth item."),
+ "C12": dict(cat="model_checking", ref="DESIGN.md 4 C12", tech="TLA+ abstract-state model Session.tla; recorded command logs of real processes and library sessions replayed by TLC (Trace_Session.tla) which rejects two different outputs for one abstract state",
+   text="Session.tla defines the abstract state (options in force, history of position/go commands since the last reset, where process start and ucinewgame are resets). Real processes run scripts built to coincide (fresh S; H-ucinewgame-S with option changes and up to 260 searches in H; S S twice) and library sessions run in the checked and optimised builds; TLC replays all command logs through the model and rejects any pair of observations that share the abstract state but differ in best move, scores, lines, node counts or fill.",
+   note="Timing perturbation = checked vs optimised build and 8 processes in parallel. Output of a search is compared as text with time/nps removed."),
+ "C13": dict(cat="model_checking", ref="DESIGN.md 4 C13", tech="crash clause of Uci.tla model-checked with the advertised Hash minimum; TLC-enumerated option scripts (Gen_Options.tla) run on the real binary; answers judged by the TLA+ rule book",
+   text="The advertised spin ranges are read from the binary's own uci output. TLC checks NoCrash of Uci.tla instantiated with the advertised Hash minimum (a zero-entry table is the model's crash state) and enumerates option scripts (min, min+1, default, max-1, max and interior values of every spin option, before and between searches, pairs of boundaries); every script runs on the real binary: readyok after each setoption, searches complete with a move the rule book accepts, clean exit.",
+   note="Quick: debug build, boundaries singly plus sampled interiors/pairs; thorough: debug and release builds, everything. At most two concurrent processes with a large table.", engine="tla-uci"),
+ "C17": dict(cat="model_checking", ref="DESIGN.md 4 C17", tech="TLC -simulate of ChessGame.tla generates games with expected FEN and reply set after every ply (Gen_Game.tla); replayed through the real binary's position command",
+   text="TLC plays games by the rule book (start position and FEN roots, up to 300 plies, biased to castling, en passant and promotions) and prints moves in long algebraic text with the specification's FEN and legal-reply set after every ply; the real binary is given 'position ... moves ...' for whole games and random prefixes and must print the same FEN and the same reply set; sampled bestmoves must be replies.",
+   note="Text is compared with text; the expected values come from TLC only.", engine="tla-uci"),
+ "C19": dict(cat="model_checking", ref="DESIGN.md 4 C19, A.8", tech="TLA+ state machine TransTable.tla with PropertyView/CodeView layers; TLC exhaustive model checking; trace validation of recorded executions of the real table; replay of TLC-simulated behaviours and TLC counterexamples on the real table",
+   text="TransTable.tla separates what C19 states (PropertyView, on the true search number) from the transcription of the code (CodeView, 8-bit age = search mod 256). TLC explores the complete reachable state space of a bounded model (3/2 slots, 5 keys with colliding pairs, depths 0..2, 3 bounds, 4 stored ages, every interleaving of insert/probe/new-search/reset/resize) and shows CodeView => PropertyView whenever fewer than GenMod searches lie between two emptyings, and that age aliasing is the only failure across a full wrap. Every operation of ~10^4 (quick) / ~10^6 (thorough) random, TLC-generated and TLC-counterexample operation sequences executed on the real table in the checked and the optimised build, sizes 1/2/3/16 MB and once 1024 MB, is a validated step of the trace specification.",
+   note="One entry per slot assumed; f32 permille compared with tolerance 1. Open known finding: an entry exactly 256k searches old is treated as current."),
 }
 
 def main():
